@@ -9,7 +9,7 @@ REGISTRY = {
         "tests": [
             {"name": "TestC01Encode", "shards": 8, "shards_thorough": 16},
         ],
-        "require": {"depth:64": 5, "slab:>213": 5, "lenbytes:3": 5, "lenbytes:2": 20},
+        "require": {"c01": 4000, "ctor:bin-byte": 288, "ctor:bin-int": 291, "ctor:bin-slice": 801, "ctor:bin-string": 279, "ctor:bool-scalar": 423, "ctor:bool-slice": 799, "ctor:float-f4-unrounded": 183, "ctor:float-scalar-float32": 157, "ctor:float-scalar-float64": 199, "ctor:float-scalar-int": 44, "ctor:float-scalar-int64": 48, "ctor:float-scalar-string": 193, "ctor:float-scalar-uint": 42, "ctor:float-slice-float32": 289, "ctor:float-slice-float64": 386, "ctor:float-slice-string": 327, "ctor:int-scalar-int": 286, "ctor:int-scalar-int16": 260, "ctor:int-scalar-int32": 275, "ctor:int-scalar-int64": 303, "ctor:int-scalar-int8": 212, "ctor:int-scalar-string": 286, "ctor:int-scalar-uint": 191, "ctor:int-scalar-uint16": 119, "ctor:int-scalar-uint32": 132, "ctor:int-scalar-uint64": 171, "ctor:int-scalar-uint8": 90, "ctor:int-slice-int": 410, "ctor:int-slice-int16": 418, "ctor:int-slice-int32": 388, "ctor:int-slice-int64": 444, "ctor:int-slice-int8": 360, "ctor:int-slice-string": 389, "ctor:int-slice-uint": 243, "ctor:int-slice-uint16": 191, "ctor:int-slice-uint32": 180, "ctor:int-slice-uint64": 190, "ctor:int-slice-uint8": 178, "ctor:list-nil-skipped": 732, "ctor:uint-scalar-int": 235, "ctor:uint-scalar-int16": 171, "ctor:uint-scalar-int32": 179, "ctor:uint-scalar-int64": 212, "ctor:uint-scalar-int8": 143, "ctor:uint-scalar-string": 251, "ctor:uint-scalar-uint": 254, "ctor:uint-scalar-uint16": 250, "ctor:uint-scalar-uint32": 254, "ctor:uint-scalar-uint64": 271, "ctor:uint-scalar-uint8": 223, "ctor:uint-slice-int": 317, "ctor:uint-slice-int16": 221, "ctor:uint-slice-int32": 230, "ctor:uint-slice-int64": 264, "ctor:uint-slice-int8": 184, "ctor:uint-slice-string": 319, "ctor:uint-slice-uint": 334, "ctor:uint-slice-uint16": 381, "ctor:uint-slice-uint32": 360, "ctor:uint-slice-uint64": 402, "ctor:uint-slice-uint8": 344, "depth:0": 2519, "depth:1-2": 984, "depth:3-8": 395, "depth:64": 5, "depth:9-62": 64, "fc:ascii:0": 414, "fc:ascii:1": 243, "fc:ascii:2": 170, "fc:ascii:>2": 232, "fc:binary:0": 617, "fc:binary:1": 356, "fc:binary:2": 236, "fc:binary:>2": 365, "fc:boolean:0": 604, "fc:boolean:1": 355, "fc:boolean:2": 208, "fc:boolean:>2": 339, "fc:f4:0": 269, "fc:f4:1": 154, "fc:f4:2": 92, "fc:f4:>2": 126, "fc:f8:0": 272, "fc:f8:1": 154, "fc:f8:2": 91, "fc:f8:>2": 135, "fc:i1:0": 326, "fc:i1:1": 191, "fc:i1:2": 108, "fc:i1:>2": 161, "fc:i2:0": 318, "fc:i2:1": 193, "fc:i2:2": 110, "fc:i2:>2": 170, "fc:i4:0": 276, "fc:i4:1": 159, "fc:i4:2": 94, "fc:i4:>2": 130, "fc:i8:0": 313, "fc:i8:1": 192, "fc:i8:2": 119, "fc:i8:>2": 154, "fc:jis8:0": 435, "fc:jis8:1": 249, "fc:jis8:2": 169, "fc:jis8:>2": 240, "fc:list:0": 531, "fc:list:1": 578, "fc:list:2": 579, "fc:list:>2": 1060, "fc:localized_str:2": 336, "fc:localized_str:>2": 391, "fc:u1:0": 266, "fc:u1:1": 166, "fc:u1:2": 95, "fc:u1:>2": 129, "fc:u2:0": 272, "fc:u2:1": 155, "fc:u2:2": 98, "fc:u2:>2": 127, "fc:u4:0": 382, "fc:u4:1": 227, "fc:u4:2": 136, "fc:u4:>2": 199, "fc:u8:0": 274, "fc:u8:1": 163, "fc:u8:2": 95, "fc:u8:>2": 129, "lenbytes:1": 3809, "lenbytes:2": 541, "lenbytes:3": 100, "slab:22-85": 55, "slab:6-21": 177, "slab:86-213": 58, "slab:>213": 75},
     },
     "C02": {
         "level": "exploration",
@@ -21,8 +21,7 @@ REGISTRY = {
             {"name": "TestC02Hostile", "shards": 1},
             {"name": "FuzzC02Decode", "shards": 1, "fuzz": True, "tier": "thorough", "fuzztime": "180s"},
         ],
-        "require": {"mut:noncanonical:accepted": 20, "mut:wrapdepth:accepted": 5, "mut:wrapdepth:rejected": 5,
-                    "mut:lengthfield:rejected": 20, "mut:hostile:rejected": 20},
+        "require": {"accepted": 5001, "hostile:accepted": 123, "hostile:rejected": 4177, "hostile:variant0": 1433, "hostile:variant1": 1433, "hostile:variant2": 1433, "mut:byteflip": 1408, "mut:byteflip:accepted": 515, "mut:byteflip:rejected": 892, "mut:formatbyte": 831, "mut:formatbyte:accepted": 62, "mut:formatbyte:rejected": 769, "mut:hostile": 468, "mut:hostile:rejected": 449, "mut:lenbytecount": 623, "mut:lenbytecount:accepted": 175, "mut:lenbytecount:rejected": 447, "mut:lengthfield": 1190, "mut:lengthfield:accepted": 478, "mut:lengthfield:rejected": 711, "mut:nestedlists": 481, "mut:nestedlists:rejected": 481, "mut:noncanonical": 613, "mut:noncanonical:accepted": 613, "mut:random": 473, "mut:random:accepted": 63, "mut:random:rejected": 410, "mut:splice": 740, "mut:splice:accepted": 740, "mut:trailing": 481, "mut:trailing:accepted": 481, "mut:truncate": 844, "mut:truncate:accepted": 214, "mut:truncate:rejected": 630, "mut:valid": 1381, "mut:valid:accepted": 1381, "mut:wrapdepth": 462, "mut:wrapdepth:accepted": 256, "mut:wrapdepth:rejected": 206, "rejected": 4998},
     },
     "C03": {
         "level": "exploration",
@@ -33,7 +32,7 @@ REGISTRY = {
             {"name": "TestC03Frames", "shards": 8, "shards_thorough": 16},
             {"name": "TestC03Wire", "shards": 4, "shards_thorough": 16},
         ],
-        "require": {"c03:control:0": 274, "c03:control:1": 274, "c03:control:2": 185, "c03:control:3": 184, "c03:control:4": 142, "c03:control:5": 127, "c03:control:6": 139, "c03:control:7": 130, "c03:control:8": 124, "c03:control:9": 164, "c03:data": 2724, "c03:rejected": 3029, "c03:restamps:1": 747, "c03:restamps:2": 742, "c03:restamps:3": 581, "c03:restamps:4": 652, "c03:wire:Forward": 1327, "c03:wire:ForwardAsync": 1313, "c03:wire:Reply": 1007, "c03:wire:Send": 987, "c03:wire:SendAsync": 991, "c03:wire:SendSECS2": 816, "c03:wire:active": 3208, "c03:wire:passive": 3235},
+        "require": {"c03:control:0": 210, "c03:control:1": 224, "c03:control:2": 141, "c03:control:3": 133, "c03:control:4": 111, "c03:control:5": 104, "c03:control:6": 116, "c03:control:7": 111, "c03:control:8": 93, "c03:control:9": 122, "c03:data": 2159, "c03:rejected": 2471, "c03:restamps:1": 608, "c03:restamps:2": 574, "c03:restamps:3": 464, "c03:restamps:4": 512, "c03:wire:Forward": 1061, "c03:wire:ForwardAsync": 1091, "c03:wire:Reply": 795, "c03:wire:Send": 776, "c03:wire:SendAsync": 804, "c03:wire:SendSECS2": 675, "c03:wire:active": 2604, "c03:wire:passive": 2599},
     },
     "C04": {
         "level": "exploration",
@@ -45,7 +44,7 @@ REGISTRY = {
             {"name": "TestC04Stream", "shards": 8, "shards_thorough": 16},
             {"name": "FuzzC04Frame", "shards": 1, "fuzz": True, "tier": "thorough", "fuzztime": "120s"},
         ],
-        "require": {"c04:accepted": 1649, "c04:accepted-bad-body": 543, "c04:mut:extend": 712, "c04:mut:flip": 710, "c04:mut:len": 1308, "c04:mut:none": 1335, "c04:mut:ptype": 902, "c04:mut:random": 902, "c04:mut:stype": 905, "c04:mut:truncate": 724, "c04:rejected": 5307, "c04s:bad-length-huge": 385, "c04s:bad-length-small": 326, "c04s:boundaries": 959, "c04s:delay:idle-long": 502, "c04s:delay:none": 3645, "c04s:delay:short": 2421, "c04s:delay:stall": 1369, "c04s:drip-head": 860, "c04s:few": 1089, "c04s:many": 1091, "c04s:role:active": 1983, "c04s:role:passive": 2016},
+        "require": {"c04:accepted": 1339, "c04:accepted-bad-body": 429, "c04:mut:extend": 566, "c04:mut:flip": 566, "c04:mut:len": 1057, "c04:mut:none": 1072, "c04:mut:ptype": 710, "c04:mut:random": 742, "c04:mut:stype": 722, "c04:mut:truncate": 562, "c04:rejected": 4231, "c04s:bad-length-huge": 317, "c04s:bad-length-small": 248, "c04s:boundaries": 763, "c04s:delay:idle-long": 390, "c04s:delay:none": 2909, "c04s:delay:short": 1929, "c04s:delay:stall": 1116, "c04s:drip-head": 710, "c04s:few": 853, "c04s:many": 873, "c04s:role:active": 1603, "c04s:role:passive": 1597},
     },
     "C06": {
         "level": "exploration",
@@ -55,7 +54,7 @@ REGISTRY = {
         "tests": [
             {"name": "TestC06Replies", "shards": 8, "shards_thorough": 16},
         ],
-        "require": {"c06:drop:early": 189, "c06:drop:mid": 179, "c06:drop:none": 631, "c06:outcome:closed": 129, "c06:outcome:ctx": 242, "c06:outcome:reject": 360, "c06:outcome:reply": 955, "c06:outcome:t3": 175, "c06:policy:abort": 250, "c06:policy:collide-control": 472, "c06:policy:collide-primary": 244, "c06:policy:dup": 364, "c06:policy:dup-late": 282, "c06:policy:late": 296, "c06:policy:none": 284, "c06:policy:reject": 290, "c06:policy:reply": 802, "c06:policy:unsolicited": 238},
+        "require": {"c06:drop:early": 113, "c06:drop:mid": 116, "c06:drop:none": 570, "c06:outcome:closed": 81, "c06:outcome:ctx": 163, "c06:outcome:reject": 245, "c06:outcome:reply": 746, "c06:outcome:t3": 135, "c06:policy:abort": 167, "c06:policy:collide-control": 330, "c06:policy:collide-primary": 173, "c06:policy:dup": 256, "c06:policy:dup-late": 198, "c06:policy:late": 190, "c06:policy:none": 205, "c06:policy:reject": 202, "c06:policy:reply": 577, "c06:policy:unsolicited": 157, "c06:slow-write": 150},
     },
     "C07": {
         "level": "exploration",
@@ -65,7 +64,7 @@ REGISTRY = {
         "tests": [
             {"name": "TestC07Gate", "shards": 8, "shards_thorough": 16},
         ],
-        "require": {"c07:between-generations": 568, "c07:closed": 1029, "c07:connected-not-selected": 1502, "c07:connecting": 364, "c07:deselected": 582, "c07:never-opened": 1048, "c07:pipeline:cuts": 551, "c07:pipeline:cuts-settle": 487, "c07:pipeline:drip": 441, "c07:pipeline:one-write": 544, "c07:role:active": 3739, "c07:role:passive": 3760, "c07:select-rejected": 380},
+        "require": {"c07:between-generations": 482, "c07:closed": 821, "c07:connected-not-selected": 1171, "c07:connecting": 287, "c07:deselected": 485, "c07:never-opened": 835, "c07:pipeline:cuts": 437, "c07:pipeline:cuts-settle": 379, "c07:pipeline:drip": 360, "c07:pipeline:one-write": 446, "c07:role:active": 3016, "c07:role:passive": 2983, "c07:select-rejected": 294},
     },
     "C05": {
         "level": "exploration",
@@ -78,7 +77,7 @@ REGISTRY = {
             {"name": "TestC05KnownF6", "shards": 1},
             {"name": "TestC05Scripts", "shards": 8, "shards_thorough": 16},
         ],
-        "require": {"in-window-commit": 2000, "stale-event": 1000, "late-commit": 300, "generation-after-close": 200, "coalesced": 5, "multi-generation": 500, "c05b:coalesced": 100, "c05b:connect-racing-close": 50, "c05b:deselect": 300, "c05b:dwell-expired": 50, "c05b:role:active": 250, "c05b:role:passive": 250},
+        "require": {"c05b:coalesced": 192, "c05b:connect-racing-close": 121, "c05b:deselect": 508, "c05b:dwell-expired": 111, "c05b:role:active": 400, "c05b:role:passive": 399, "close": 2940, "coalesced": 1061, "generation-after-close": 2209, "in-window-commit": 2569, "late-commit": 2385, "multi-generation": 1240, "stale-event": 2872},
     },
     "C08": {
         "level": "exploration",
@@ -88,10 +87,7 @@ REGISTRY = {
         "tests": [
             {"name": "TestC08Responder", "shards": 8, "shards_thorough": 16},
         ],
-        "require": {"c08:role:active": 2000, "c08:role:passive": 2000, "c08:select-first": 1000, "c08:select-duplicate": 500, "c08:deselect-selected": 500,
-                    "c08:deselect-not-selected": 500, "c08:reject-ptype": 500, "c08:reject-stype": 500, "c08:reject-control-with-body": 500,
-                    "c08:orphan-response": 500, "c08:separate-selected": 300, "c08:separate-ignored": 300, "c08:second-connection": 200,
-                    "c08:own-select-accepted": 300, "c08:own-select-refused": 50, "c08:data-not-selected": 500, "c08:data-delivered": 300},
+        "require": {"c08:data-delivered": 1088, "c08:data-not-selected": 1593, "c08:data-session-mismatch": 584, "c08:deselect-not-selected": 1681, "c08:deselect-selected": 1796, "c08:late-response-after-timeout": 273, "c08:linktest": 1332, "c08:orphan-reject-ignored": 1091, "c08:orphan-response": 1762, "c08:own-select-accepted": 659, "c08:own-select-already-active": 192, "c08:own-select-refused": 97, "c08:own-select-rejected": 337, "c08:reject-control-with-body": 1707, "c08:reject-ptype": 2050, "c08:reject-stype": 1818, "c08:responses-cut-by-disconnect": 469, "c08:role:active": 2001, "c08:role:passive": 1999, "c08:second-connection": 966, "c08:select-duplicate": 2037, "c08:select-first": 3075, "c08:separate-ignored": 741, "c08:separate-selected": 936},
     },
     "C09": {
         "level": "fault_enumeration",
@@ -102,7 +98,7 @@ REGISTRY = {
             {"name": "TestC09Generations", "shards": 8, "shards_thorough": 16},
             {"name": "TestC09Secs1", "shards": 4, "shards_thorough": 16, "crash_is_violation": True},
         ],
-        "require": {"c09:fault:close": 1023, "c09:fault:cut-mid-frame": 428, "c09:fault:linktest-dead": 419, "c09:fault:peer-close": 819, "c09:fault:peer-reset": 798, "c09:fault:reply-then-close": 568, "c09:fault:separate": 412, "c09:fault:stall-queue-reset": 559, "c09:fault:t8-stall": 415, "c09:fault:write-timeout": 489, "c09:gens:1": 1024, "c09:gens:2": 1017, "c09:gens:3": 958, "c09:pending-at-fault": 3988, "c09:role:active": 1484, "c09:role:passive": 1515, "c09:stale-replies-played": 999},
+        "require": {"c09:fault:close": 831, "c09:fault:cut-mid-frame": 296, "c09:fault:linktest-dead": 321, "c09:fault:peer-close": 632, "c09:fault:peer-reset": 616, "c09:fault:reply-then-close": 798, "c09:fault:separate": 264, "c09:fault:stall-queue-reset": 310, "c09:fault:t8-stall": 300, "c09:fault:write-timeout": 370, "c09:gens:1": 811, "c09:gens:2": 835, "c09:gens:3": 753, "c09:pending-at-fault": 3189, "c09:role:active": 1198, "c09:role:passive": 1201, "c09:stale-replies-played": 859, "c09s1:gens:1": 273, "c09s1:gens:2": 268, "c09s1:gens:3": 258, "c09s1:role:equipment": 393, "c09s1:role:host": 406},
     },
     "C10": {
         "level": "exploration",
@@ -112,7 +108,7 @@ REGISTRY = {
         "tests": [
             {"name": "TestC10Lifecycle", "shards": 8, "shards_thorough": 16, "crash_is_violation": True},
         ],
-        "require": {"c10:cycles:1": 5, "c10:cycles:2": 8, "c10:cycles:3": 5, "c10:peer:absent": 8, "c10:peer:drop": 4, "c10:peer:flap": 6, "c10:peer:select": 30, "c10:peer:silent": 6, "c10:reopened": 58, "c10:role:active": 9, "c10:role:passive": 20, "c10:transport:hsmsss": 23, "c10:transport:secs1": 8},
+        "require": {"c10:reopened": 48},
     },
     "C11": {
         "level": "fault_enumeration",
@@ -124,7 +120,7 @@ REGISTRY = {
             {"name": "TestC11Recovery", "shards": 8, "shards_thorough": 16},
             {"name": "TestC11CutEnumeration", "shards": 1},
         ],
-        "require": {"backoff": 25000, "backoff:flat": 4871, "backoff:nonfinite": 5405, "backoff:reaches-T5": 4570, "c11:cut-beyond-exchange": 126, "c11:enumerated": 50, "c11:fault:cut-in": 275, "c11:fault:cut-out": 191, "c11:fault:linktest": 81, "c11:fault:peer-close": 73, "c11:fault:select-rejected": 45, "c11:fault:t6": 38, "c11:fault:t7": 46, "c11:fault:t8": 84, "c11:fault:write-timeout": 87, "c11:refusals:0": 339, "c11:refusals:1": 137, "c11:refusals:2": 129, "c11:refusals:3": 317, "c11:role:active": 466, "c11:role:passive": 458},
+        "require": {"backoff": 20000, "backoff:flat": 3901, "backoff:nonfinite": 4308, "backoff:reaches-T5": 3677, "c11:cut-beyond-exchange": 100, "c11:enumerated": 40, "c11:fault:cut-in": 228, "c11:fault:cut-out": 149, "c11:fault:linktest": 67, "c11:fault:peer-close": 65, "c11:fault:t7": 42, "c11:fault:t8": 59, "c11:fault:write-timeout": 63, "c11:redundant-open": 283, "c11:refusals:0": 274, "c11:refusals:1": 102, "c11:refusals:2": 109, "c11:refusals:3": 253, "c11:role:active": 371, "c11:role:passive": 368},
     },
     "C17": {
         "level": "exploration",
@@ -136,7 +132,7 @@ REGISTRY = {
             {"name": "TestC17Assembler", "shards": 4, "shards_thorough": 16},
             {"name": "TestC17Line", "shards": 8, "shards_thorough": 16},
         ],
-        "require": {"c17:blocks:1": 2607, "c17:blocks:2": 747, "c17:blocks:3": 614, "c17:blocks:4": 1031, "c17:parse:extend": 874, "c17:parse:flip": 1179, "c17:parse:length": 900, "c17:parse:none": 1164, "c17:parse:truncate": 880, "c17a:block-0": 758, "c17a:block-0-lone": 769, "c17a:changed-header": 1365, "c17a:duplicate": 1231, "c17a:new-message": 1202, "c17a:next": 4804, "c17a:next-after-T4": 1339, "c17a:skipped-number": 896, "c17a:wrong-device": 1348, "c17a:wrong-direction": 1366, "c17l:in:bad-checksum": 230, "c17l:in:bad-length": 218, "c17l:in:block-0": 132, "c17l:in:block-0-lone": 134, "c17l:in:changed-header": 253, "c17l:in:duplicate": 217, "c17l:in:new-message": 221, "c17l:in:next": 5065, "c17l:in:next-after-T4": 233, "c17l:in:skipped-number": 165, "c17l:in:wrong-device": 259, "c17l:in:wrong-direction": 245, "c17l:inbound": 754, "c17l:out:blocks:1": 748, "c17l:out:blocks:2": 216, "c17l:out:blocks:3": 179, "c17l:out:blocks:4": 297, "c17l:out:forward": 735, "c17l:out:nak-retry": 496, "c17l:out:send": 706, "c17l:outbound": 745, "c17l:role:equipment": 743, "c17l:role:host": 757},
+        "require": {"c17:blocks:1": 2091, "c17:blocks:2": 590, "c17:blocks:3": 481, "c17:blocks:4": 836, "c17:parse:extend": 718, "c17:parse:flip": 928, "c17:parse:length": 715, "c17:parse:none": 942, "c17:parse:truncate": 695, "c17a:block-0": 620, "c17a:block-0-lone": 616, "c17a:changed-header": 1071, "c17a:duplicate": 964, "c17a:new-message": 963, "c17a:next": 3842, "c17a:next-after-T4": 1061, "c17a:skipped-number": 732, "c17a:wrong-device": 1081, "c17a:wrong-direction": 1081, "c17l:in:bad-checksum": 192, "c17l:in:bad-length": 178, "c17l:in:block-0": 107, "c17l:in:block-0-lone": 113, "c17l:in:changed-header": 209, "c17l:in:duplicate": 203, "c17l:in:new-message": 191, "c17l:in:next": 4245, "c17l:in:next-after-T4": 209, "c17l:in:skipped-number": 138, "c17l:in:wrong-device": 213, "c17l:in:wrong-direction": 214, "c17l:inbound": 623, "c17l:out:blocks:1": 589, "c17l:out:blocks:2": 172, "c17l:out:blocks:3": 141, "c17l:out:blocks:4": 235, "c17l:out:forward": 582, "c17l:out:nak-retry": 396, "c17l:out:send": 556, "c17l:outbound": 576, "c17l:role:equipment": 595, "c17l:role:host": 604},
     },
     "C18": {
         "level": "fault_enumeration",
@@ -146,7 +142,7 @@ REGISTRY = {
         "tests": [
             {"name": "TestC18ExactlyOnce", "shards": 8, "shards_thorough": 16, "crash_is_violation": True},
         ],
-        "require": {"c18:contention": 88, "c18:fault:ACK:delay": 5, "c18:fault:ACK:drop": 8, "c18:fault:ACK:replace-nak": 5, "c18:fault:ENQ:drop": 14, "c18:fault:EOT:drop": 14, "c18:fault:NAK:drop": 5, "c18:fault:block:drop": 14, "c18:fault:block:flip": 30, "c18:fault:block:truncate": 11, "c18:faults-hit:0": 37, "c18:faults-hit:1": 34, "c18:faults-hit:2": 17, "c18:faults-hit:3": 11, "c18:rty:0": 25, "c18:rty:1": 27, "c18:rty:2": 20, "c18:rty:3": 27, "c18:send-failed": 17},
+        "require": {"c18:contention": 71},
     },
     "C19": {
         "level": "exploration",
@@ -157,7 +153,7 @@ REGISTRY = {
             {"name": "TestC19Reducers", "shards": 8, "shards_thorough": 16},
             {"name": "TestC19Linktest", "shards": 8, "shards_thorough": 16},
         ],
-        "require": {"c19b:alive-after-probe": 53, "c19b:answers": 62, "c19b:answers-then-silent": 55, "c19b:inbound-chatty": 45, "c19b:outbound-chatty": 42, "c19b:reply-outstanding": 39, "c19b:role:active": 184, "c19b:role:passive": 191, "c19b:silent": 77, "c19b:suppress:false": 188, "c19b:suppress:true": 187, "c19b:threshold:1": 100, "c19b:threshold:2": 101, "c19b:threshold:3": 83, "c19b:threshold:4": 91, "credited": 9119, "restart": 10356, "suppress:false": 12484, "suppress:true": 12515, "threshold:1": 5227, "threshold:2": 5148, "threshold:3": 3785, "threshold:4": 3787, "threshold:5": 3226, "threshold:6": 3824},
+        "require": {"c19b:answers": 50, "c19b:role:active": 151, "c19b:role:passive": 148, "c19b:silent": 50, "c19b:suppress:false": 152, "c19b:suppress:true": 147, "c19b:threshold:1": 74, "c19b:threshold:2": 85, "c19b:threshold:3": 68, "c19b:threshold:4": 71, "credited": 7339, "restart": 8242, "suppress:false": 9975, "suppress:true": 10025, "threshold:1": 4121, "threshold:2": 4159, "threshold:3": 3088, "threshold:4": 3008, "threshold:5": 2537, "threshold:6": 3084},
     },
     "C20": {
         "level": "exploration",
@@ -167,7 +163,7 @@ REGISTRY = {
         "tests": [
             {"name": "TestC20Metrics", "shards": 8, "shards_thorough": 16},
         ],
-        "require": {"c20:cold-open": 502, "c20:outcome:cancel": 777, "c20:outcome:disconnect": 597, "c20:outcome:ok": 1592, "c20:outcome:refused": 1326, "c20:outcome:reject": 869, "c20:outcome:t3": 1220, "c20:outcome:write-error": 549, "c20:role:active": 995, "c20:role:passive": 1004},
+        "require": {"c20:cold-open": 402, "c20:outcome:cancel": 620, "c20:outcome:disconnect": 477, "c20:outcome:ok": 1274, "c20:outcome:refused": 1060, "c20:outcome:reject": 695, "c20:outcome:t3": 976, "c20:outcome:write-error": 440, "c20:role:active": 796, "c20:role:passive": 803},
     },
     "C12": {
         "level": "exploration",
@@ -177,7 +173,7 @@ REGISTRY = {
         "tests": [
             {"name": "TestC12Immutable", "shards": 8, "shards_thorough": 16, "race": True, "crash_is_violation": True},
         ],
-        "require": {"c12:constructed": 176, "c12:counted:false": 120, "c12:counted:true": 136, "c12:decoded": 81},
+        "require": {"c12:constructed": 222, "c12:counted:false": 165, "c12:counted:true": 155, "c12:decoded": 97},
     },
     "C13": {
         "level": "exploration",
@@ -188,7 +184,7 @@ REGISTRY = {
             {"name": "TestC13EncodeParse", "shards": 8, "shards_thorough": 16},
             {"name": "TestC13ParseEncode", "shards": 8, "shards_thorough": 16},
         ],
-        "require": {"ascii-special": 200, "ascii-gt": 50, "float-extreme": 100, "accepted": 1000, "loose": 500, "multi": 200},
+        "require": {"accepted": 2799, "ascii-gt": 108, "ascii-special": 520, "c13enc": 4000, "c13parse": 3000, "comments": 1500, "empty-body": 503, "float-extreme": 531, "loose": 2194, "multi": 1090, "rejected": 200},
     },
     "C15": {
         "level": "exploration",
@@ -196,7 +192,7 @@ REGISTRY = {
         "trust": "The differential is between the library's two renderers (that agreement IS the property); read-back trusts harness/ref/e5 values.",
         "technique": 'property-based testing (rapid): differential between renderers + parse read-back',
         "tests": [{"name": "TestC15Renderers", "shards": 8, "shards_thorough": 16}],
-        "require": {"empty-child": 100, "extreme-numeric": 100, "readback": 500},
+        "require": {"c15": 4000, "empty-child": 351, "extreme-numeric": 590, "readback": 2614, "top:ascii": 198, "top:binary": 356, "top:boolean": 351, "top:f4": 106, "top:f8": 115, "top:i1": 147, "top:i2": 138, "top:i4": 113, "top:i8": 137, "top:jis8": 194, "top:list": 1480, "top:localized_str": 141, "top:u1": 112, "top:u2": 110, "top:u4": 183, "top:u8": 112},
     },
     "C16": {
         "level": "exploration",
@@ -204,7 +200,7 @@ REGISTRY = {
         "trust": 'Trusts the contract model in props/c16_test.go (written from the constructor docs).',
         "technique": 'property-based testing (rapid): model-based oracle',
         "tests": [{"name": "TestC16Constructors", "shards": 4, "shards_thorough": 16}],
-        "require": {"c16:clamped": 500, "c16:refused": 1000, "c16:value": 1000},
+        "require": {"c16:binary": 775, "c16:boolean": 989, "c16:clamped": 804, "c16:float": 1544, "c16:int": 2824, "c16:refused": 4344, "c16:uint": 1866, "c16:value": 2852},
     },
     "C14": {
         "level": "exploration",
@@ -217,7 +213,7 @@ REGISTRY = {
             {"name": "TestC14Concurrent", "shards": 4, "shards_thorough": 8, "race": True, "crash_is_violation": True},
             {"name": "FuzzC14SML", "shards": 1, "fuzz": True, "tier": "thorough", "fuzztime": "180s", "crash_is_violation": True},
         ],
-        "require": {"c14:some-rejected": 2000, "c14:all-accepted": 500, "shape:hint": 50, "shape:nest": 9, "c14conc": 100},
+        "require": {"c14:all-accepted": 1618, "c14:delete": 557, "c14:dropquotes": 395, "c14:duplicate": 402, "c14:header": 339, "c14:hint": 359, "c14:insert": 548, "c14:some-rejected": 4381, "c14:soup": 481, "c14:swapbrackets": 335, "c14:truncate": 890, "c14:unbalance-close": 403, "c14:unterminated": 333, "c14:valid": 954, "c14conc": 60, "shape:hint": 21, "shape:nest": 3},
     },
 }
 
